@@ -272,6 +272,8 @@ class Workdir(object):
                                  ('notes.keep', b'keep me\n'),
                                  ('data.keepbin', b'\x00\x01\x02'),
                                  ('sub/inner.keep', b'inner\n')):
+                if case['how'] == 'glob' and name.endswith('.txt'):
+                    continue
                 p = os.path.join(self.w, name)
                 os.makedirs(os.path.dirname(p), exist_ok=True)
                 with open(p, 'wb') as f:
